@@ -391,3 +391,47 @@ pub fn c01session() -> bool {
     eprintln!("c01session: {nsessions} sessions; longest: {worst} messages; mismatch: {bad}");
     bad
 }
+
+/// C02 (pruning on insert, real store): inserting an entry removes exactly the same author's entries below its key that are
+/// not newer, reports their number, and touches nothing else (newer children, neighbouring keys, the other author).
+pub fn c02prune() -> bool {
+    let doc = Doc::new(80);
+    let mut bad = false;
+    for order in 0..2 {
+        let mut store = Store::memory();
+        // age: smaller = newer.  The new entry "a" has age 50.
+        let mut pre = vec![
+            doc.entry(0, b"a/1", 70, 1),  // older child: removed
+            doc.entry(0, b"a/2", 30, 1),  // newer child: stays
+            doc.entry(0, b"ab", 90, 1),   // starts with "a", older: removed
+            doc.entry(0, b"a\xff", 60, 1), // starts with "a", older: removed
+            doc.entry(0, b"b", 95, 1),    // neighbouring key: stays
+            doc.entry(0, b"", 99, 1),     // the empty key is a prefix of "a", older than it: stays (it is not BELOW "a")
+            doc.entry(1, b"a/1", 99, 1),  // other author: stays
+            doc.entry(1, b"a", 99, 1),    // other author, same key: stays
+        ];
+        if order == 1 {
+            pre.reverse();
+        }
+        fill(&mut store, &doc, &pre);
+        let before = all_of(&mut store, &doc).len();
+        let removed = {
+            let mut r = store.open_replica(&doc.ns.id()).unwrap();
+            let n = block_on(r.insert_remote_entry(doc.entry(0, b"a", 50, 2), [1u8; 32], ContentStatus::Complete));
+            drop(r);
+            store.close_replica(doc.ns.id());
+            n
+        };
+        let after = all_of(&mut store, &doc);
+        let keys: Vec<(usize, Vec<u8>)> = after.iter().map(|e| (doc.authors.iter().position(|a| a.id() == e.author()).unwrap(), e.key().to_vec())).collect();
+        let mut want: Vec<(usize, Vec<u8>)> = vec![(0, b"".to_vec()), (0, b"a".to_vec()), (0, b"a/2".to_vec()), (0, b"b".to_vec()), (1, b"a".to_vec()), (1, b"a/1".to_vec())];
+        want.sort();
+        let mut got = keys.clone();
+        got.sort();
+        if before != 8 || !matches!(removed, Ok(3)) || got != want {
+            eprintln!("c02prune: before {before} entries; insert reported {:?} removed (expected 3); left {:?}, expected {:?}", removed, got, want);
+            bad = true;
+        }
+    }
+    bad
+}
